@@ -317,7 +317,7 @@ def run_and_validate(chk, behaviours, label, flavour="plain", hists=None):
                             sorted((d["c"] != e.get("c"), tuple(i["k"] for i in d["items"])) for d in e.get("rxd", [])),
                             len(e.get("eof", [])), e.get("sc"), e.get("rc")])
     if events:
-        chk.sample({"source": label, "script": behaviours[len(behaviours) // 2][:14], "first_events": events[:6]})
+        chk.sample({"source": label, "script": behaviours[0][:16], "first_events": events[:8]})
     report(chk, res, events, behaviours, label)
     st = res.get("stats") or {}
     if label != "replay" and nb >= 100 and not res.get("viol") and (st.get("bridges", 0) == 0 or st.get("tokens", 0) == 0 or st.get("finals", 0) == 0):
